@@ -3,18 +3,19 @@
 From Coq Require Import List NArith ZArith Bool.
 From Muscle Require Import Gen.Consts Refl.Base Refl.Tree Refl.Matcher Refl.Traverse Refl.Session Refl.Server Refl.Route
   Refl.TravBase Refl.TraverseProofs Refl.TraverseTheorems Refl.TraverseExit Refl.TravWitness Refl.RouteProofs Refl.RouteRun
-  Refl.RouteWitness Pat.Ere Pat.Translate Refl.ClauseKeys Refl.PatInst Refl.RoutePat.
+  Refl.RouteWitness Pat.Ere Pat.Translate Refl.ClauseKeys Refl.PatInst Refl.RoutePat
+  Refl.BaseProofs Refl.ServerProofs Refl.RouteReach.
 Import ListNotations.
 
 (* The theorems below are about the repaired code: the sources the translator has just read must not contain the
-   as-found text of F12 (guard), F19 (once per session), F20 (default route), F39 (lookup keys of a comma list unescaped
+   as-found text of F12 (guard), F19 (once per session), F20 (default route), F52 (lookup keys of a comma list unescaped
    twice), and PassMessageCallbackAux must return NODE_DEPTH_SESSIONNAME, DumbReflectSession must start with both
    gateway/neighbour flags set. *)
 Theorem code_is_repaired :
   (c_c05_guard_as_found, c_c05_once_as_found, c_c05_route_as_found, c_c05_uvkeys_as_found) = (0, 0, 0, 0)%N /\
   (c_c05_pass_returns_session_depth, c_c05_default_flags_gw_and_nb) = (1, 1)%N /\ r_as_is = r_all_fixed /\
   (forall st, clause_keys st = clause_keys_with true st).
-Proof. repeat split; reflexivity. Qed.
+Proof. exact code_is_repaired_lemma. Qed.
 Print Assumptions code_is_repaired.
 
 (* The set of nodes a wildcard traversal (NodePathMatcher::DoTraversal with a callback that goes on, repaired guard)
@@ -52,7 +53,7 @@ Example premises_satisfiable :
   tree_wf f12_tree /\ matcher_wf f12_matcher /\
   (forall (c : clause) (ks : list name) (k : name), True -> ckeys c = Some ks -> cmatch c k = true -> In k ks) /\
   map n_path (visits f12_tree f12_matcher [] true true) = [[jeremy; kate]; [kevin; joe]].
-Proof. split; [exact f12_tree_wf|]. split; [exact f12_matcher_wf|]. split; [intros c ks k _; apply wkeys_sound | exact f12_fixed_visits]. Qed.
+Proof. exact premises_satisfiable_lemma. Qed.
 
 (* A client-to-client Message (what code outside the PR_COMMAND range) handed to MessageReceivedFromGateway of session s
    is appended EXACTLY ONCE to the outgoing queue of every session that [route_targets] selects and to no other queue,
@@ -145,17 +146,97 @@ Example deliver_once_premises_satisfiable :
   (exists ss ri, get_session (rs_srv setup_state) 0%N = Some ss /\ get_info setup_state 0%N = Some ri /\ matcher_wf (ri_route ri)).
 Proof. exact setup_state_wf. Qed.
 
+(* ---- every server tree reachable by client commands ----
+   The server part of a routing state evolves by the handlers of Refl/Server.v (SETDATA, REMOVEDATA, subscriptions, BATCH,
+   sessions arriving and leaving).  With build-C04's invariant (run_inv) every state reached from the empty server by ANY
+   history satisfies the premises of deliver_once; what remains: the clause laws (C04's class MatchLaws), fewer than 2^31
+   subscriptions in the history, and a session arrives under a fresh (host, session id) pair. *)
+Theorem reachable_states_satisfy_premises :
+  forall (M : MatchOps) (L : MatchLaws M) (evs : list revent),
+    small (run_budget (flat_map srv_ev evs)) -> wf_run (srv_fixes r_all_fixed) empty_server (flat_map srv_ev evs) ->
+    tree_wf (sv_tree (rs_srv (rrun r_all_fixed evs empty_rstate))) /\
+    NoDup (map s_id (sv_sessions (rs_srv (rrun r_all_fixed evs empty_rstate)))) /\
+    routes_wf (rrun r_all_fixed evs empty_rstate).
+Proof. exact @reachable_premises_lemma. Qed.
+Print Assumptions reachable_states_satisfy_premises.
+
+Theorem deliver_once_reachable :
+  forall (M : MatchOps) (L : MatchLaws M) (evs : list revent) (s : sid) (ss : session) (ri : rinfo) (m : umsg),
+    small (run_budget (flat_map srv_ev evs)) -> wf_run (srv_fixes r_all_fixed) empty_server (flat_map srv_ev evs) ->
+    let st := rrun r_all_fixed evs empty_rstate in
+    get_session (rs_srv st) s = Some ss -> get_info st s = Some ri -> in_cmd_range (u_what m) = false ->
+    rstep r_all_fixed st (RCmd s (RMsg m))
+    = mkRS (rs_srv st)
+           (map (fun x => if route_targets st s ri m (ri_id x)
+                          then put_inbox s (mkD s (u_tag m) (overwrite (u_session m) (s_name ss))) x else x) (rs_info st)).
+Proof. exact @deliver_once_reachable_lemma. Qed.
+Print Assumptions deliver_once_reachable.
+
+(* non-vacuity: a history of three arrivals and a SETDATA satisfies the side conditions, for an instance satisfying MatchLaws *)
+Example reachable_side_conditions_satisfiable :
+  small (run_budget (flat_map srv_ev setup)) /\ wf_run (srv_fixes r_all_fixed) empty_server (flat_map srv_ev setup).
+Proof. exact setup_side_conditions. Qed.
+
+(* The filter side of deliver_once, spelled out: session r is a target of a keyed Message iff it may be sent to and owns a
+   node that some pattern of the table matches clause by clause and whose Message passes THAT pattern's filter; and which
+   filter belongs to which key (PathMatcher::PutPathsFromMessage: value i of the filters field, else the previous one). *)
+Theorem targets_filter_side :
+  forall (M : MatchOps) (st : rstate) (s : sid) (self_ok : bool) (mt : matcher) (r : sid),
+    matcher_wf mt ->
+    (gets st s self_ok mt r = true <->
+     eligible s self_ok r = true /\
+     exists n e, In n (sv_tree (rs_srv st)) /\ In e (all_entries mt) /\ owned_by (sv_sessions (rs_srv st)) r n = true /\
+                 pat_matches (e_pat e) (n_path n) = true /\ filter_ok (e_flt e) (Some (n_data n)) = true).
+Proof. exact @gets_spec. Qed.
+Print Assumptions targets_filter_side.
+
+Theorem filters_align_with_keys :
+  forall (M : MatchOps) (keys : list spath) (flts : list (option qfilter)) (cur : option qfilter),
+    (length keys <= length flts ->
+     paths_from_message keys flts cur = combine (map fix_path keys) (firstn (length keys) flts)) /\
+    paths_from_message keys [] cur = map (fun k => (fix_path k, cur)) keys.
+Proof. exact @filters_align_lemma. Qed.
+Print Assumptions filters_align_with_keys.
+
+(* The traversal seen through the public API.
+   FindMatchingSessions(path, filter, results, includeSelf, no limit): exactly the sessions owning a node the pattern and
+   its filter accept, each once, the caller only if asked for (the callback returns "skip to the next session"). *)
+Theorem find_sessions_exact :
+  forall (M : MatchOps) (okname : name -> Prop),
+    (forall (c : clause) (ks : list name) (k : name), okname k -> ckeys c = Some ks -> cmatch c k = true -> In k ks) ->
+    (forall (c : clause) (ks : list name) (k : name), ckeys c = Some ks -> In k ks -> cmatch c k = true) ->
+    forall (st : rstate) (s : sid) (sp : spath) (f : option qfilter) (include_self : bool),
+      tree_wf (sv_tree (rs_srv st)) -> (forall n, In n (sv_tree (rs_srv st)) -> Forall okname (n_path n)) ->
+      fix_path sp <> [] ->
+      NoDup (find_sessions r_all_fixed st s sp f include_self None) /\
+      (forall r, In r (find_sessions r_all_fixed st s sp f include_self None) <->
+                 (include_self = true \/ r <> s) /\
+                 existsb (fun n => owned_by (sv_sessions (rs_srv st)) r n &&
+                                   matches_path (m_put empty_matcher (fix_path sp) f) (n_path n) (Some (n_data n)))
+                         (sv_tree (rs_srv st)) = true).
+Proof. exact @find_sessions_lemma. Qed.
+Print Assumptions find_sessions_exact.
+
+(* FindMatchingNodes / FindNodesCallback with a result limit k >= 1 (the callback returns -1, "abort now", at the k-th
+   node): the first k nodes of the unlimited traversal -- for any callback-independent part of the state, any setting of the
+   repairs; with traversal_eq_bruteforce: k distinct accepted nodes, or all of them *)
+Theorem find_nodes_limit :
+  forall (M : MatchOps) (fx : rfixes) (t : tree) (m : matcher) (root : path) (uf : bool) (k : nat),
+    1 <= k -> find_nodes fx t m root uf (Some k) = firstn k (visits t m root uf (rf_guard fx)).
+Proof. exact @find_nodes_limit_lemma. Qed.
+Print Assumptions find_nodes_limit.
+
 (* ---- the clause laws are not only premises: the instance used by the correspondence run satisfies them ---- *)
 
 (* The MatchOps instance [pat_ops] (Refl/PatInst.v) = C15's model of regex/StringMatcher.cpp + the lookup-key parsing of
-   DoTraversalAux / DoDirectChildLookup (repaired, F39).  Its lookup keys are exactly the names its clause matches, for
+   DoTraversalAux / DoDirectChildLookup (repaired, F52).  Its lookup keys are exactly the names its clause matches, for
    every name that is the number of a non-empty string -- by C15's laws unique_sound and uvlist_sound. *)
 Theorem clause_laws_hold :
   forall (tbl : name -> list N) (untbl : list N -> name), (forall s, tbl (untbl s) = s) ->
     (forall (c : list N) (ks : list name) (k : name),
        okname tbl untbl k -> pkeys untbl true c = Some ks -> pmatch tbl c k = true -> In k ks) /\
     (forall (c : list N) (ks : list name) (k : name), pkeys untbl true c = Some ks -> In k ks -> pmatch tbl c k = true).
-Proof. intros tbl untbl H. split; [exact (pkeys_sound tbl untbl) | exact (pkeys_complete tbl untbl H)]. Qed.
+Proof. exact clause_laws_lemma. Qed.
 Print Assumptions clause_laws_hold.
 
 (* traversal_eq_bruteforce without clause premises, for the StringMatcher model *)
@@ -184,7 +265,7 @@ Theorem deliver_once_stringmatcher :
 Proof. exact deliver_once_stringmatcher_lemma. Qed.
 Print Assumptions deliver_once_stringmatcher.
 
-(* F39: with the key parsing as found a list-of-unique-values clause reports a lookup key it does not match
+(* F52: with the key parsing as found a list-of-unique-values clause reports a lookup key it does not match
    (the clause a\\b,c looks up ab), so the clause law fails; the repaired parsing reports a\b and c *)
 Theorem uvkeys_refuted_as_found :
   exists (p k : list N),
